@@ -1,13 +1,92 @@
-// Package c11 is the correspondence harness for property C11 (placeholder).
+// Package c11 is the correspondence harness for property C11 (the multiplexer fails stop).
 package c11
 
 import (
-	"errors"
+	"encoding/json"
+	"os"
+	"path/filepath"
+	"time"
 
+	"verifh/c10"
 	"verifh/internal/hx"
 	"verifh/internal/lineio"
 )
 
 func Run(o *hx.Opts, w *lineio.Writer) error {
-	return errors.New("C11 harness not implemented")
+	if c10.IsWorker() {
+		return c10.Worker(o, w, RunOne)
+	}
+	if o.Replay != "" {
+		jobs, err := c10.ReplayJobs(o.Replay)
+		if err != nil {
+			return err
+		}
+		return c10.RunIsolated("C11", o, w, jobs, 1, 60*time.Second)
+	}
+	mp := c10.MaxPayloadOrDocumented()
+	if dir := os.Getenv("VERIFH_DUMP_CORPUS"); dir != "" {
+		// maintenance: regenerate the hand-picked corpus files from the generators
+		return dumpCorpus(dir, mp)
+	}
+	var jobs []c10.Job
+	sizes := [3]int{5, 0, 3}
+	if o.Thorough() {
+		sizes = [3]int{40, 0, 50}
+	}
+	jobs = append(jobs, c10.TruncationSweep(mp, sizes)...)
+	jobs = append(jobs, c10.OverflowSweep(mp, []int{1, 2, 3, 4, 7})...)
+	jobs = append(jobs, c10.ListenerScripts(mp)...)
+	r := o.Rand(11)
+	for i := 0; i < o.N(500, 12000); i++ {
+		jobs = append(jobs, c10.RandomScript(r, mp, i))
+	}
+	if err := c10.RunIsolated("C11", o, w, jobs, 12, 20*time.Second); err != nil {
+		return err
+	}
+	var chaos []c10.Job
+	for i := 0; i < o.N(240, 4000); i++ {
+		chaos = append(chaos, RandomChaos(r, mp, i))
+	}
+	return c10.RunIsolated("C11", o, w, chaos, 10, 30*time.Second)
+}
+
+func dumpCorpus(dir string, mp int) error {
+	dump := func(prop, name string, jobs []c10.Job) error {
+		if err := os.MkdirAll(filepath.Join(dir, prop), 0o755); err != nil {
+			return err
+		}
+		f, err := os.Create(filepath.Join(dir, prop, name))
+		if err != nil {
+			return err
+		}
+		defer f.Close()
+		for _, j := range jobs {
+			b, err := json.Marshal(map[string]interface{}{"id": j.ID, "in": j.In})
+			if err != nil {
+				return err
+			}
+			f.Write(append(b, '\n'))
+		}
+		return nil
+	}
+	if err := dump("C11", "open-after-close.jsonl", c10.OpenAfterClose(mp)); err != nil {
+		return err
+	}
+	if err := dump("C10", "excluded-points.jsonl", c10.ExcludedScripts(mp)); err != nil {
+		return err
+	}
+	var pick []c10.Job
+	for _, j := range c10.TruncationSweep(mp, [3]int{5, 0, 3}) {
+		switch j.ID {
+		case "trunc-d0-k0", "trunc-d0-k3", "trunc-d0-k8", "trunc-d0-k10", "trunc-d0-k13", "trunc-d1-k21", "trunc-d0-k32":
+			pick = append(pick, j)
+		}
+	}
+	if err := dump("C11", "truncation-edges.jsonl", pick); err != nil {
+		return err
+	}
+	if err := dump("C11", "overflow-q1.jsonl", c10.OverflowSweep(mp, []int{1})[:2]); err != nil {
+		return err
+	}
+	return dump("C11", "listener.jsonl", c10.ListenerScripts(mp))
 }
